@@ -147,6 +147,57 @@ pub fn run(tier: Tier) -> i32 {
             );
         }
     });
+    // two build results of the same shape (same lengths, different contents) written one after the
+    // other on one thread, in every order of the two writers: each file holds its own result
+    let n_pairs_same_shape = AtomicU64::new(0);
+    {
+        let mut id = 30_000_000usize;
+        for (l, o) in [(1usize, 1usize), (16, 16), (17, 3), (40, 40), (600, 7), (65536, 16), (65537, 65537)] {
+            for first_code in [true, false] {
+                for second_code in [true, false] {
+                    for same_variable in [true, false] {
+                        id += 2;
+                        // X: pattern 1 / 2, Y: position hash - same two lengths
+                        let x = built(pattern(1, l), pattern(2, o));
+                        let y = built(pattern(0, l), pattern(0, o));
+                        let px = scratch.path.join(format!("s{}.hex", id));
+                        let py = scratch.path.join(format!("s{}.hex", id + 1));
+                        let mut slot = x.clone();
+                        let r1 = if first_code { sut::write_code_hex(px.clone(), &slot) } else { sut::write_eeprom_hex(px.clone(), &slot) };
+                        if same_variable {
+                            slot = y.clone();
+                        }
+                        let second = if same_variable { &slot } else { &y };
+                        let r2 = if second_code { sut::write_code_hex(py.clone(), second) } else { sut::write_eeprom_hex(py.clone(), second) };
+                        n_pairs_same_shape.fetch_add(1, Ordering::Relaxed);
+                        evals.fetch_add(2, Ordering::Relaxed);
+                        for (r, path, res, is_code, which) in [(r1, &px, &x, first_code, "first"), (r2, &py, &y, second_code, "second")] {
+                            let image = if is_code { &res.code } else { &res.eeprom };
+                            let verdict: Option<(String, String)> = match r {
+                                Err(e) => Some(("write-failed".into(), format!("the writer fails: {}", e))),
+                                Ok(()) => match std::fs::read(path) {
+                                    Err(e) => Some(("no-file".into(), format!("no file: {}", e))),
+                                    Ok(t) => match ihex::decode(&t) {
+                                        Err(e) => Some(("malformed".into(), e)),
+                                        Ok(d) => ihex::compare(&d, image).map(|e| ("wrong-content".into(), e)),
+                                    },
+                                },
+                            };
+                            let _ = std::fs::remove_file(path);
+                            if let Some((kind, detail)) = verdict {
+                                let w = if is_code { "code" } else { "eeprom" };
+                                rep.violation(
+                                    &format!("C07/{}/writer={}/two-results-of-one-shape/{}-write", kind, w, which),
+                                    || format!("two build results with images of {} and {} bytes written one after the other ({} then {}): the {} file: {}", l, o, if first_code { "code" } else { "eeprom" }, if second_code { "code" } else { "eeprom" }, which, detail),
+                                    || json!({"kind": "hex", "writer": w, "len": image.len(), "pattern": if which == "first" { 1 } else { 0 }, "other_len": 0, "sequence": {"first": if first_code { "code" } else { "eeprom" }, "second": if second_code { "code" } else { "eeprom" }, "lengths": [l, o], "same_variable": same_variable}, "observed": detail}),
+                                );
+                            }
+                        }
+                    }
+                }
+            }
+        }
+    }
     // a write that fails (missing directory, path is a directory, /dev/full) followed by an
     // ordinary write on the same thread: nothing of the failed one may show in the second file
     let n_after_fail = AtomicU64::new(0);
@@ -200,6 +251,7 @@ pub fn run(tier: Tier) -> i32 {
         "distinct_lengths": distinct_lengths.len(),
         "image_bytes_compared": bytes_checked.load(Ordering::Relaxed),
         "rewrites_of_a_path_holding_a_longer_file": n_pre.load(Ordering::Relaxed),
+        "pairs_of_results_of_one_shape": n_pairs_same_shape.load(Ordering::Relaxed),
         "writes_right_after_a_failed_write": n_after_fail.load(Ordering::Relaxed),
         "default_device_boundaries_x64K": big_ks,
         "largest_length": largest_flash_bytes,
